@@ -1,14 +1,25 @@
 """C04 — deterministic and categorical skill scores equal their definitions.
 
 Model: lean/HydroVerif/Model/C04.lean; theorems: lean/HydroVerif/Props/C04.lean.
-Correspondence: metrics.bias / nse / kge / corr(Pearson, mean|median) are called on the raw series with a
-transform and excludenull; the model is fed trans.forward(series) (null pairs filtered by the model's own
-`nonull` when excludenull) and must return the same value (Float instance, tolerance scaled by the conditioning of
-the mean and of the variance; exact-rational instance for nse and bias). confusion_matrix and binary are compared
-cell by cell / score by score.
-Oracle (real code only): perfect simulation, mean simulation, nse<=1, kge<=1, affine / scale invariance,
-excludenull == removal of incomplete pairs, confusion counts by brute force, binary scores from their
-contingency definitions (Yule's Q for ORSS, harmonic mean for F1, cross-product odds ratio).
+Correspondence:
+ * closed forms: metrics.bias / nse / kge / corr are called on the raw series with a transform and excludenull; the model is fed
+   trans.forward(series) (null pairs filtered by the model's own `nonull` when excludenull) and must return the same value (Float
+   instance, tolerance scaled by the conditioning of the mean and of the variance; exact-rational instance for nse and bias);
+ * whole functions (`biasfull`, `nsefull`, `kgefull`, `corrraw`): the model gets the RAW arguments and applies the transform model
+   of C01/C02 itself, then the argument checks, orientation, __check_ensemble_data, null filter, guards, closed form; values and
+   error kinds are compared, also on degenerate observations, magnitudes under the guards' absolute threshold, NaN/inf without
+   excludenull, lengths 0/1, mismatched lengths, [p,n] ensembles, unknown stat / type, type="censored";
+ * confusion_matrix cell by cell (labels outside 0..ncat-1 too), binary score by score, binary() on tables it rejects
+   (shape, zero cells), the route series -> confusion_matrix(ncat=2) -> binary;
+ * histories: tables and score dictionaries HELD by the caller are re-read after every later call and after the caller's own
+   edits of other results; the model runs the same operation list (`hrun`);
+ * rounded carrier: the model's formulas in float32 arithmetic (`Rnd Float r32`), bit-for-bit against a float32 reference,
+   and the `_rnd` theorems' claims (exact 1 / 0, bounds) are checked on it.
+Oracle (real code only): perfect simulation (NSE exactly 1, bias exactly 0), mean simulation, nse<=1 and kge<=1 without
+tolerance, affine / scale invariance, excludenull == removal of incomplete pairs, series stored as [n] or [n,1], corr of a
+series given as [n] / [n,1] / one-member ensemble, confusion counts by brute force (also for tables held while others are
+computed), binary scores from their contingency definitions (Yule's Q for ORSS, harmonic mean for F1, cross-product odds
+ratio), proportions in [0,1], ORSS in [-1,1].
 Cases: series of length 2..60 (quick) with obs mean/std kept away from 0 as the property requires; transforms
 Identity, Log, BoxCox2, Reciprocal, Sinh at admissible parameters; NaN/inf scattered; category series over
 2..6 categories with absent categories, ncat given or inferred; 2x2 tables with four positive counts,
@@ -72,6 +83,23 @@ def midranks(x):
     """average ranks (1-based), computed independently of scipy"""
     x = list(x)
     return np.array([sum(1 for y in x if y < v) + (sum(1 for y in x if y == v) + 1) / 2.0 for v in x])
+
+
+def nse_float32(o, s):
+    """1 - SSE/SSO in float32 arithmetic, operations in the order of the model (right folds): the reference for the model's
+    rounded carrier `Rnd Float r32`"""
+    f = np.float32
+    with np.errstate(all="ignore"):
+        o, s = [f(x) for x in o], [f(x) for x in s]
+        def sum_r(xs):
+            acc = f(0)
+            for x in reversed(xs):
+                acc = x + acc
+            return acc
+        mo = sum_r(o) / f(len(o))
+        sse = sum_r([(b - a) * (b - a) for a, b in zip(o, s)])
+        sso = sum_r([(mo - a) * (mo - a) for a in o])
+        return float(f(1) - sse / sso)
 
 
 def gen_series(rng, n, positive):
@@ -172,6 +200,54 @@ def body(ctx):
             p = {"nu": rng.choice([0.0, 0.5]), "scale": rng.choice([0.1, 1.0, 3.0])}
         return transform.get_transform(name, **p), p
 
+    def ttoken(tname, tp):
+        if tname == "Identity":
+            return "Identity"
+        if tname == "Log":
+            return f"Log:{C.f2h(tp['nu'])}"
+        if tname == "BoxCox2":
+            return f"BoxCox2:{C.f2h(tp['nu'])}:{C.f2h(tp['lam'])}"
+        if tname == "Reciprocal":
+            return f"Reciprocal:{C.f2h(tp['nu'])}"
+        return f"Sinh:{C.f2h(tp['nu'])}:{C.f2h(tp['scale'])}"
+
+    def outcome(fn):
+        """what a call of the real code gives: a float, "nan", or the kind of error raised"""
+        try:
+            with warnings.catch_warnings(), np.errstate(all="ignore"):
+                warnings.simplefilter("ignore")
+                v = float(fn())
+        except ValueError as e:
+            m = str(e)
+            if "No valid data" in m:
+                return "err novalid"
+            if "Expected sim with dim" in m or "Expected ens with first dim" in m:
+                return "err shape"
+            if "Expected type in" in m:
+                return "err type"
+            if "Expected stat in" in m:
+                return "err stat"
+            if "Expected confusion matrix of shape" in m:
+                return "err shape"
+            return "err other ValueError " + m[:60]
+        except ZeroDivisionError:
+            return "err zerodiv"
+        except Exception as e:  # noqa
+            return f"err other {type(e).__name__} {str(e)[:60]}"
+        return "nan" if v != v else v
+
+    def same_value(a, b):
+        return (a == b) or (a != a and b != b)
+
+    import time as _time
+    _t = [_time.time()]
+    ctx.extra["section_wall_s"] = {}
+
+    def lap(name):
+        now = _time.time()
+        ctx.extra["section_wall_s"][name] = round(now - _t[0], 1)
+        _t[0] = now
+
     ncases = ctx.scale(900, 9000)
     for it in range(ncases):
         n = rng.choice([2, 3, 4, 5, 8, 13, 30, 60]) if not ctx.thorough else rng.randint(2, 300)
@@ -239,6 +315,40 @@ def body(ctx):
         ctx.count((tname, tuple(fo), tuple(fs), excl), bool(np.isfinite(v)), f"{tname}/excl={excl}",
                   sample={"obs": o[:6].tolist(), "sim": s[:6].tolist(), "trans": tname, "params": tp,
                           "excludenull": excl, "nse": float(v)})
+        # the whole functions through the model: raw series + the transform model of C01/C02 + null filter + guards
+        tok = ttoken(tname, tp)
+        for ty in ("standard", "normalised", "log"):
+            reqs.append(f"biasfull {ty} {C.f2h(EPS)} {tok} {int(excl)} {C.flist(o)} {C.flist(s)}")
+            checks.append(("full", outcome(lambda: metrics.bias(o, s, trans, excl, ty)), cond, {**case, "fn": "bias", "type": ty}))
+        reqs.append(f"nsefull {tok} {int(excl)} {C.flist(o)} {C.flist(s)}")
+        checks.append(("full", outcome(lambda: metrics.nse(o, s, trans, excl)), cond, {**case, "fn": "nse"}))
+        reqs.append(f"kgefull {C.f2h(EPS)} {tok} {int(excl)} {C.flist(o)} {C.flist(s)}")
+        checks.append(("full", outcome(lambda: metrics.kge(o, s, trans, excl)), 10 * cond, {**case, "fn": "kge"}))
+        # a series may be stored as a [n] or as a [n,1] array (docstrings of bias / nse / kge): the score is that of the series
+        lay = rng.choice(["obs", "sim", "both"])
+        oa = o[:, None] if lay in ("obs", "both") else o
+        sa = s[:, None] if lay in ("sim", "both") else s
+        for nm_, f_ in (("bias", metrics.bias), ("nse", metrics.nse), ("kge", metrics.kge)):
+            vflat, vlay = outcome(lambda: f_(o, s, trans, excl)), outcome(lambda: f_(oa, sa, trans, excl))
+            if isinstance(vlay, str) != isinstance(vflat, str) or (isinstance(vlay, str) and vlay != vflat) \
+                    or (not isinstance(vlay, str) and not same_value(vlay, vflat)):
+                ctx.finding(f"{nm_}/series_as_column_array_differs", f"{nm_} of series stored as [n,1] arrays is not the score of the series",
+                            {**case, "column_arrays": lay, "value": vlay, "value_flat": vflat})
+        ctx.count(("layout", lay, tname, tuple(fo), tuple(fs)), True, "layout/column_" + lay)
+        # the model's formulas on the rounded carrier (float32 arithmetic): the `_rnd` theorems are statements about this instance
+        if float(np.max(np.abs(fo))) < 1e15 and float(np.max(np.abs(fs))) < 1e15 and np.std(np.float32(fo)) > 0:
+            ctx.count(("rnd32", tuple(fo), tuple(fs)), True, "rounded_carrier/float32" + ("/with_reference" if len(fo) <= 13 else ""))
+            reqs.append(f"nse32 {sfo} {sfs}")
+            checks.append(("rnd32", ("nse", nse_float32(fo, fs) if len(fo) <= 13 else None), 1.0, case))
+            reqs.append(f"nse32 {sfo} {sfo}")
+            checks.append(("rnd32", ("nse_perfect", None), 1.0, case))
+            reqs.append(f"kge32 {C.f2h(EPS)} {sfo} {sfs}")
+            checks.append(("rnd32", ("kge", None), 1.0, case))
+            reqs.append(f"bias32 std {C.f2h(EPS)} {sfo} {sfo}")
+            checks.append(("rnd32", ("bias_perfect", None), 1.0, case))
+            if float(np.min(fo)) >= 0 and float(np.min(fs)) >= 0:
+                reqs.append(f"bias32 norm {C.f2h(EPS)} {sfo} {sfs}")
+                checks.append(("rnd32", ("bias_norm_range", None), 1.0, case))
         # corr with an ensemble and a statistic
         m = rng.choice([1, 2, 5])
         ens = np.column_stack([s + (0 if j == 0 else rng.gauss(0, 0.1)) * (np.nanstd(s[np.isfinite(s)]) + 0.01) for j in range(m)])
@@ -259,6 +369,12 @@ def body(ctx):
                     and np.std(tsim) > 1e-6 * (abs(np.mean(tsim)) + 1e-300):
                 reqs.append(f"corr {C.f2h(EPS)} {C.flist(to2)} {C.flist(tsim)}")
                 checks.append(("corr", float(vc), max(cond_number(to2), cond_number(tsim)), {**case, "stat": stat, "nens": m}))
+                # definition: Pearson correlation of the transformed observations with the statistic taken ACROSS THE MEMBERS
+                # (axis 1) of the transformed ensemble
+                pdef = float(np.corrcoef(to2, tsim)[0, 1])
+                if not sclose(float(vc), pdef, max(cond_number(to2), cond_number(tsim)), 1e-10):
+                    ctx.finding("corr/pearson/not_definition", "Pearson correlation differs from the correlation of the observations with the per-forecast statistic of the ensemble",
+                                {**case, "stat": stat, "ens": ens.tolist(), "value": float(vc), "definition": pdef})
                 # Spearman: Pearson correlation of the mid-ranks (ties matter)
                 vs = metrics.corr(o, ens, trans, excl, stat=stat, type="Spearman")
                 ro, rs = midranks(to2), midranks(tsim)
@@ -333,10 +449,11 @@ def body(ctx):
         tol = min(1e-6, 1e-9 * cond)
         if not holes:
             vp = metrics.nse(o, o, trans, excl)
-            if not abs(vp - 1) <= tol:
+            # exactly 1, exactly 0: every error of a perfect simulation is the float 0 (nse_perfect_rnd, bias_perfect_rnd)
+            if not vp == 1.0:
                 ctx.finding("nse/perfect_not_1", "NSE of a perfect simulation is not 1", {**case, "value": float(vp)})
             bp = metrics.bias(o, o, trans, excl)
-            if not abs(bp) <= tol:
+            if not bp == 0.0:
                 ctx.finding("bias/perfect_not_0", "bias of a perfect simulation is not 0", {**case, "value": float(bp)})
             kp = metrics.kge(o, o, trans, excl)
             if not abs(kp - 1) <= 1e-6:
@@ -344,9 +461,10 @@ def body(ctx):
             cp = metrics.corr(o, o, trans, excl, stat="mean")
             if not abs(cp - 1) <= 1e-9:
                 ctx.finding("corr/perfect_not_1", "correlation of a perfect simulation is not 1", {**case, "value": float(cp)})
-        if np.isfinite(v) and v > 1 + 1e-12:
+        # no tolerance: the bounds survive rounding (nse_le_one_rnd, kge_le_one_rnd)
+        if np.isfinite(v) and v > 1:
             ctx.finding("nse/gt_1", "NSE exceeds 1", {**case, "value": float(v)})
-        if np.isfinite(vk) and vk > 1 + 1e-12:
+        if np.isfinite(vk) and vk > 1:
             ctx.finding("kge/gt_1", "KGE exceeds 1", {**case, "value": float(vk)})
         # definition, computed independently with exact rationals on the independently transformed, filtered series
         io, isim = indep_forward(tname, tp, o), indep_forward(tname, tp, s)
@@ -356,6 +474,20 @@ def body(ctx):
             # trans.forward itself disagrees with the definition of the transform (stale state, wrong branch ...)
             ctx.finding(f"score/transformed_series_differs/{tname}", "trans.forward(series) used by the score differs from the transform's definition on this series",
                         {**case, "forward": [float(v) for v in fo[:5]], "definition": [float(v) for v in ifo[:5]]})
+        if holes:
+            # the clause itself, on the real code: excludenull=True is excludenull=False on the series without the incomplete
+            # pairs (which pairs are incomplete is decided with the independent transform); and the same statement on the model
+            # (biasFull_excl / nseFull_excl / kgeFull_excl run by the driver on this input)
+            o_r, s_r = o[iok], s[iok]
+            for nm_, f_ in (("bias", metrics.bias), ("nse", metrics.nse), ("kge", metrics.kge)):
+                a_, b_ = outcome(lambda: f_(o, s, trans, True)), outcome(lambda: f_(o_r, s_r, trans, False))
+                if isinstance(a_, str) != isinstance(b_, str) or (isinstance(a_, str) and a_ != b_) or \
+                        (not isinstance(a_, str) and not (same_value(a_, b_) or abs(a_ - b_) <= 1e-13 * max(1.0, abs(a_)))):
+                    ctx.finding(f"{nm_}/excludenull_differs_from_removed_pairs", f"{nm_} with excludenull is not {nm_} of the series with the incomplete pairs removed",
+                                {**case, "with_excludenull": a_, "removed_pairs": b_, "obs_removed": o_r.tolist(), "sim_removed": s_r.tolist()})
+            reqs.append(f"exclremoved {C.f2h(EPS)} {ttoken(tname, tp)} {C.flist(o)} {C.flist(s)}")
+            checks.append(("exclremoved", (o_r.tolist(), s_r.tolist()), 1.0, case))
+            ctx.count(("exclremoved", tname, tuple(o), tuple(s)), True, "excludenull/removed_pairs")
         fo_q, fs_q = [Fraction(float(x)) for x in ifo], [Fraction(float(x)) for x in ifs]
         mo = sum(fo_q) / len(fo_q)
         den = sum((x - mo) ** 2 for x in fo_q)
@@ -406,6 +538,7 @@ def body(ctx):
                 ctx.finding("kge/not_scale_invariant", "KGE changes under a common positive scaling", {**case, "c": c, "values": [float(vk), float(k2)]})
 
     # ---------------- state history: the same arrays are edited IN PLACE between two scorings with the same transform object
+    lap("main_series")
     for it in range(ctx.scale(150, 1500)):
         n = rng.choice([3, 8, 20])
         tname = rng.choice(["Identity", "Identity", "Log", "BoxCox2", "Sinh"])
@@ -439,6 +572,7 @@ def body(ctx):
     # ---------------- level-like data: the mean is much larger than the spread (still inside the quantifier: the
     # standard deviation is more than 1e-6 of the level).  One-pass formulas cancel catastrophically here, the
     # definitions evaluated on centred data do not: the real code, the model and the definition agree to ~1e-13.
+    lap("inplace_history")
     for it in range(ctx.scale(200, 2000)):
         n = rng.choice([2, 3, 5, 8, 13, 30, 60])
         z = np.array([rng.gauss(0, 1) for _ in range(n)])
@@ -488,8 +622,166 @@ def body(ctx):
                 ctx.finding(f"{nm_}/not_definition_on_level_data", f"{nm_} differs from its definition on level-like data",
                             {**case, "value": v, "definition": want, "level_over_std": float(lvl)})
 
-    # ---------------- confusion matrix
+    # ---------------- the whole functions on everything they accept or reject: degenerate observations (guards), NaN/inf with and
+    # without excludenull, values the transform maps to NaN, lengths 0/1, mismatched lengths, unknown type/stat.  Only the
+    # model is compared here (which series the code calls degenerate, which error it raises); the oracle stays silent
+    # outside the property's quantifier.
+    def punch(x, positive, nu):
+        k = rng.randrange(len(x))
+        # (-inf is outside the domain of the positive transforms and numpy's power(-inf, 0.5) is not C's pow there: C01's business)
+        x[k] = rng.choice([np.nan, np.nan, np.inf, -(nu or 0.0) - rng.choice([0.0, 1.0])]) if positive \
+            else rng.choice([np.nan, np.nan, np.inf, -np.inf])
+
+    lap("level_data")
+    for it in range(ctx.scale(700, 7000)):
+        n = rng.choice([0, 1, 2, 3, 4, 5, 8, 20])
+        tname = rng.choice(["Identity", "Identity", "Log", "BoxCox2", "Reciprocal", "Sinh"])
+        positive = tname in ("Log", "BoxCox2", "Reciprocal")
+        o, sm, gkind = gen_series(rng, max(n, 2), positive)
+        o, sm = o[:n].copy(), sm[:n].copy()
+        trans, tp = make_trans(tname)
+        shape = rng.choice(["ok"] * 6 + ["const_obs", "const_sim", "zero_mean", "tiny", "tiny"])
+        if n >= 2:
+            if shape == "const_obs":
+                o[:] = float(rng.choice([1, 2, 3, 5]))
+            elif shape == "const_sim":
+                sm[:] = float(rng.choice([1, 2, 3, 5]))
+            elif shape == "zero_mean" and not positive:
+                half = [float(rng.choice([1, 2, 3, 7])) for _ in range(n // 2)]
+                o = np.array(half + [-v for v in half] + ([0.0] if n % 2 else []))
+                rng.shuffle(o)
+            elif shape == "tiny" and tname == "Identity":
+                sc_ = rng.choice([1e-9, 1e-10, 1e-11, 1e-12, 1e-13])
+                o, sm = o * sc_ / max(1.0, float(np.max(np.abs(o)))), sm * sc_ / max(1.0, float(np.max(np.abs(sm))))
+        if n >= 1 and rng.random() < 0.5:
+            for _ in range(rng.randint(1, 3)):
+                punch(o if rng.random() < 0.5 else sm, positive, tp.get("nu"))
+        excl = rng.random() < 0.5
+        u = rng.random()
+        s_arg = sm
+        if u < 0.08:
+            s_arg = np.concatenate([sm, [1.0]]) if rng.random() < 0.5 or n == 0 else sm[:-1]
+        bty = rng.choice(["standard", "normalised", "log", "log", "bidule"])
+        tok = ttoken(tname, tp)
+        with np.errstate(all="ignore"), warnings.catch_warnings():
+            warnings.simplefilter("ignore")
+            to, ts = trans.forward(o), trans.forward(sm)
+        okp = np.isfinite(to) & np.isfinite(ts)
+        fo, fs = (to[okp], ts[okp]) if excl else (to, ts)
+        good = len(s_arg) == n and len(fo) >= 2 and bool(np.all(np.isfinite(fo)) and np.all(np.isfinite(fs))) and well_conditioned(fo)
+        cond = max(cond_number(fo), cond_number(fs) if np.std(fs) > 0 else 1.0) if good else None
+        case = {"obs": o.tolist(), "sim": s_arg.tolist(), "trans": tname, "params": tp, "excludenull": excl, "gen": gkind + "/" + shape}
+        rb = outcome(lambda: metrics.bias(o, s_arg, trans, excl, bty))
+        reqs.append(f"biasfull {bty} {C.f2h(EPS)} {tok} {int(excl)} {C.flist(o)} {C.flist(s_arg)}")
+        # an unknown type on a series that is also degenerate / holds NaN: which of the two is reported first is an accident
+        checks.append((("info:full" if bty == "bidule" and len(s_arg) == n and not (good and abs(float(np.mean(fo))) > 10 * EPS) else "full"), rb, cond, {**case, "fn": "bias", "type": bty}))
+        rn = outcome(lambda: metrics.nse(o, s_arg, trans, excl))
+        reqs.append(f"nsefull {tok} {int(excl)} {C.flist(o)} {C.flist(s_arg)}")
+        checks.append(("full", rn, cond, {**case, "fn": "nse"}))
+        rk = outcome(lambda: metrics.kge(o, s_arg, trans, excl))
+        reqs.append(f"kgefull {C.f2h(EPS)} {tok} {int(excl)} {C.flist(o)} {C.flist(s_arg)}")
+        # const_sim: the standard deviation of sim is rounding noise around the guard's zero; compare the kind only
+        checks.append(("full", rk, (10 * cond if cond is not None and shape != "const_sim" and np.std(fs) > 1e-6 * (abs(np.mean(fs)) + 1e-300) else None),
+                       {**case, "fn": "kge"}))
+        lab = lambda r: r if isinstance(r, str) and r.startswith("err") else ("nan" if r == "nan" else "value")
+        ctx.count(("whole", tname, tuple(o), tuple(s_arg), excl, bty), not isinstance(rb, str), f"whole/bias={lab(rb)}/nse={lab(rn)}/kge={lab(rk)}")
+
+    # corr from its raw arguments: a 1d series, a column, [n,p] ensembles (square ones too), [p,n] arrays (rejected), NaN
+    # observations, forecasts without any member, inf, values outside the transform's domain, unknown stat / type, "censored"
+    lap("whole_functions")
     for it in range(ctx.scale(500, 5000)):
+        n = rng.choice([1, 2, 3, 4, 5, 8, 13])
+        tname = rng.choice(["Identity", "Identity", "Log", "BoxCox2", "Reciprocal", "Sinh"])
+        positive = tname in ("Log", "BoxCox2", "Reciprocal")
+        o, sm, gkind = gen_series(rng, max(n, 2), positive)
+        o, sm = o[:n].copy(), sm[:n].copy()
+        trans, tp = make_trans(tname)
+        form = rng.choice(["series", "column", "ens", "ens", "square", "rows", "short"])
+        p_ = {"series": 1, "column": 1, "square": n}.get(form, rng.choice([2, 3, 5]))
+        nr = n - 1 if form == "short" else n
+        ens = np.column_stack([sm[:nr] + (0 if j == 0 else rng.gauss(0, 0.2)) * (np.std(sm) + 0.01) for j in range(p_)]) if nr > 0 else np.zeros((0, p_))
+        if positive:
+            ens = np.abs(ens) + 0.05
+        if ens.size and rng.random() < 0.5:
+            for _ in range(rng.randint(1, 3)):
+                i_, j_ = rng.randrange(ens.shape[0]), rng.randrange(ens.shape[1])
+                ens[i_, j_] = rng.choice([np.nan, np.nan, np.inf, -(tp.get("nu") or 0.0) - 1.0]) if positive else rng.choice([np.nan, np.nan, np.inf, -np.inf])
+        if ens.size and rng.random() < 0.15:
+            ens[rng.randrange(ens.shape[0]), :] = np.nan
+        if rng.random() < 0.3:
+            punch(o, positive, tp.get("nu"))
+        if rng.random() < 0.04:
+            o[:] = np.nan
+        e_arg = ens[:, 0].copy() if form == "series" else (ens.T.copy() if form == "rows" else ens)
+        o_arg = o[:, None] if rng.random() < 0.2 else o
+        stat = rng.choice(["mean", "median", "mean", "median", "max"])
+        ctype = rng.choice(["Pearson", "Spearman", "Pearson", "Spearman", "censored", "Kendall"])
+        excl = rng.random() < 0.5
+        rc = outcome(lambda: metrics.corr(o_arg, e_arg, trans, excl, stat=stat, type=ctype))
+        # conditioning of the series the coefficient is computed from (for the tolerance only)
+        cond = None
+        if not isinstance(rc, str) and e_arg.ndim >= 1:
+            e2 = np.atleast_2d(e_arg)
+            e2 = e2.T if e2.shape[0] == 1 else e2
+            idx = ~np.isnan(o) & (~np.isnan(e2)).any(axis=1)
+            with np.errstate(all="ignore"), warnings.catch_warnings():
+                warnings.simplefilter("ignore")
+                a3, te3 = trans.forward(o[idx]), trans.forward(e2[idx, :])
+                b3 = np.nanmean(te3, axis=1) if stat == "mean" else np.nanmedian(te3, axis=1)
+            if excl:
+                k3 = np.isfinite(a3) & np.isfinite(b3)
+                a3, b3 = a3[k3], b3[k3]
+            if len(a3) >= 2 and np.all(np.isfinite(a3)) and np.all(np.isfinite(b3)) and well_conditioned(a3):
+                if ctype == "Pearson":
+                    if np.std(b3) > 1e-6 * (abs(np.mean(b3)) + 1e-300):
+                        cond = max(cond_number(a3), cond_number(b3))
+                else:
+                    ra, rb_ = midranks(a3), midranks(b3)
+                    if np.std(ra) > 0 and np.std(rb_) > 0:
+                        cond = max(cond_number(ra), cond_number(rb_))
+        mat = C.fmat(np.atleast_2d(e_arg)) if e_arg.size else "[]"
+        reqs.append(f"corrraw {C.f2h(EPS)} {ttoken(tname, tp)} {ctype} {stat} {int(excl)} {C.flist(o)} {mat}")
+        checks.append(("full", rc, cond, {"obs": o.tolist(), "ens": np.asarray(e_arg).tolist(), "trans": tname, "params": tp, "excludenull": excl,
+                                          "stat": stat, "type": ctype, "form": form, "fn": "corr"}))
+        ctx.count(("corrraw", tname, o.tobytes(), np.asarray(e_arg).tobytes(), e_arg.shape, stat, ctype, excl), not isinstance(rc, str),
+                  f"corrraw/{form}/" + (rc if isinstance(rc, str) else "value"))
+        # oracle (inside the quantifier: complete data, valid stat / type): an [n,p] ensemble is never read as [p,n], a series
+        # given as [n], [n,1] or as a one-member ensemble is the same series
+        if rng.random() < 0.15 and e_arg.size:
+            # every optional argument left to its default: Identity, no null filter, median, Pearson
+            rd = outcome(lambda: metrics.corr(o_arg, e_arg))
+            reqs.append(f"corrraw {C.f2h(EPS)} Identity Pearson median 0 {C.flist(o)} {mat}")
+            cd_ = None
+            if not isinstance(rd, str) and np.all(np.isfinite(o)) and np.all(np.isfinite(e_arg)) and len(o) >= 3 and form in ("series", "column", "ens", "square"):
+                bd_ = np.median(ens, axis=1)
+                if well_conditioned(o) and np.std(bd_) > 1e-6 * (abs(np.mean(bd_)) + 1e-300):
+                    cd_ = max(cond_number(o), cond_number(bd_))
+            checks.append(("full", rd, cd_, {"obs": o.tolist(), "ens": np.asarray(e_arg).tolist(), "defaults": True, "fn": "corr"}))
+            ctx.count(("corrdefaults", o.tobytes(), np.asarray(e_arg).tobytes()), not isinstance(rd, str), "corrraw/defaults")
+        if excl and not isinstance(rc, str) and ctype in ("Pearson", "Spearman") and stat in ("mean", "median") and form in ("ens", "square", "column"):
+            # excludenull = the forecasts with an incomplete (observation, statistic) pair removed (corrSeries_excl), on the real code
+            io_, ie_ = indep_forward(tname, tp, o), indep_forward(tname, tp, ens)
+            with np.errstate(all="ignore"), warnings.catch_warnings():
+                warnings.simplefilter("ignore")
+                ist = np.nanmean(ie_, axis=1) if stat == "mean" else np.nanmedian(ie_, axis=1)
+            keep = np.isfinite(io_) & np.isfinite(ist)
+            if keep.sum() >= 2 and keep.sum() < len(o):
+                r3 = outcome(lambda: metrics.corr(o[keep], ens[keep, :], trans, False, stat=stat, type=ctype))
+                if isinstance(r3, str) or not (same_value(r3, rc) or abs(r3 - rc) <= 1e-12):
+                    ctx.finding("corr/excludenull_differs_from_removed_pairs", "corr with excludenull is not corr of the forecasts with the incomplete pairs removed",
+                                {"obs": o.tolist(), "ens": ens.tolist(), "trans": tname, "params": tp, "stat": stat, "type": ctype,
+                                 "with_excludenull": rc, "removed_pairs": r3, "kept": keep.tolist()})
+                ctx.count(("correxcl", o.tobytes(), ens.tobytes(), stat, ctype), True, "corrraw/excludenull_vs_removed")
+        if form in ("series", "column") and not isinstance(rc, str) and ctype in ("Pearson", "Spearman") and stat in ("mean", "median"):
+            r2 = outcome(lambda: metrics.corr(o, ens[:, 0].copy() if form == "column" else ens, trans, excl, stat=stat, type=ctype))
+            if isinstance(r2, str) or not same_value(r2, rc):
+                ctx.finding("corr/series_layout_differs", "corr of a series given as [n] and as [n,1] differ",
+                            {"obs": o.tolist(), "sim": ens[:, 0].tolist(), "trans": tname, "params": tp, "excludenull": excl, "stat": stat, "type": ctype,
+                             "values": [rc, r2]})
+
+    # ---------------- confusion matrix
+    lap("corr_raw")
+    for it in range(ctx.scale(500, 3000)):
         ncat_true = rng.randint(2, 6)
         n = rng.choice([1, 2, 3, 5, 10, 40])
         present_o = rng.sample(range(ncat_true), rng.randint(1, ncat_true))
@@ -498,13 +790,18 @@ def body(ctx):
         sim = [rng.choice(present_s) for _ in range(n)]
         given = rng.random() < 0.5
         ncat = ncat_true if given else None
-        cm = metrics.confusion_matrix(obs, sim, ncat)
+        how = rng.choice(["list", "int64", "int32", "int8", "series"])
+        if how == "series":
+            import pandas as pd
+        wrap = {"list": list, "int64": np.array, "int32": lambda x: np.array(x, dtype=np.int32), "int8": lambda x: np.array(x, dtype=np.int8),
+                "series": lambda x: pd.Series(x)}[how]
+        cm = metrics.confusion_matrix(wrap(obs), wrap(sim), ncat)
         rows, cols = [int(x) for x in cm.index.values], [int(x) for x in cm.columns.values]
         cells = "[" + ";".join(",".join(str(int(v)) for v in r) for r in cm.values) + "]"
         nc_model = ncat_true if given else (max(obs + sim) + 1)
         impl = f"{nc_model} {C.ilist(rows)} {C.ilist(cols)} {cells}"
         reqs.append(f"conf {C.ilist(obs)} {C.ilist(sim)} {ncat if given else '-'}")
-        case = {"obs": obs, "sim": sim, "ncat": ncat}
+        case = {"obs": obs, "sim": sim, "ncat": ncat, "given_as": how}
         checks.append(("conf", impl, 1.0, case))
         ctx.count(("conf", tuple(obs), tuple(sim), ncat), n > 1, "confusion/" + ("given" if given else "inferred"))
         # oracle: every pair counted once in a table of the requested size
@@ -516,6 +813,136 @@ def body(ctx):
                         "confusion matrix is not the table of pair counts over categories 0..ncat-1",
                         {**case, "rows": rows, "cols": cols, "cells": got})
 
+    # ---------------- histories of results that are HELD by the caller: every table / score dictionary returned earlier is
+    # looked at again after each later call (other forecasts of the same observations, the transposed problem, other ncat,
+    # tables that need completing and tables that do not), and the caller edits some of the objects it holds.  A result is a
+    # value: it depends on its own (obs, sim, ncat) and on its holder's own edits, never on what is computed afterwards,
+    # and a later call never sees what a caller did to an earlier result.  The model (`hrun` over a list of operations)
+    # is run on the same history and must hold the same tables at the end.
+    def table_of(cm):
+        return ([int(x) for x in cm.index.values], [int(x) for x in cm.columns.values],
+                [[int(v) for v in r] for r in np.asarray(cm.values)])
+
+    lap("confusion")
+    for it in range(ctx.scale(250, 1200)):
+        ncat_h = rng.randint(2, 6)
+        nops = rng.randint(2, 7)
+        held = []          # dicts: obj, want (labels, labels, cells), args
+        ops_txt, ops_case = [], []
+        obs_h = None
+        bad = False
+        for step in range(nops):
+            u = rng.random()
+            if u < 0.65 or not held:
+                n = rng.choice([1, 2, 3, 6, 12, 40])
+                # the same observations are scored against several forecasts, or swapped with the forecast
+                if obs_h is None or len(obs_h) != n or rng.random() < 0.3:
+                    pres = rng.sample(range(ncat_h), rng.randint(1, ncat_h))
+                    obs_h = [rng.choice(pres) for _ in range(n)]
+                pres = rng.sample(range(ncat_h), rng.randint(1, ncat_h))
+                sim_h = [rng.choice(pres) for _ in range(n)]
+                a, b = (obs_h, sim_h) if rng.random() < 0.8 else (sim_h, obs_h)
+                given = rng.random() < 0.5
+                size = ncat_h if given else max(a + b) + 1
+                wrap = rng.choice([list, np.array, lambda x: np.array(x, dtype=np.int32)])
+                cm = metrics.confusion_matrix(wrap(a), wrap(b), ncat_h if given else None)
+                want = (list(range(size)), list(range(size)),
+                        [[sum(1 for p, q in zip(a, b) if p == i and q == j) for j in range(size)] for i in range(size)])
+                held.append({"obj": cm, "want": want, "args": {"obs": list(a), "sim": list(b), "ncat": ncat_h if given else None}})
+                ops_txt.append(f"S:{C.ilist(a)}:{C.ilist(b)}:{ncat_h if given else '-'}")
+                ops_case.append({"op": "confusion_matrix", **held[-1]["args"]})
+            else:
+                k = rng.randrange(len(held))
+                h = held[k]
+                size = len(h["want"][0])
+                if u < 0.85:
+                    i, j, v = rng.randrange(size), rng.randrange(size), rng.randint(0, 99)
+                    h["obj"].iloc[i, j] = v
+                    h["want"][2][i][j] = v
+                    ops_txt.append(f"E:{k}:{i}:{j}:{v}")
+                    ops_case.append({"op": "caller sets a cell of held table", "table": k, "row": i, "col": j, "value": v})
+                else:
+                    v = rng.randint(0, 99)
+                    h["obj"].iloc[:, :] = v
+                    h["want"] = (h["want"][0], h["want"][1], [[v] * size for _ in range(size)])
+                    ops_txt.append(f"F:{k}:{v}")
+                    ops_case.append({"op": "caller fills held table", "table": k, "value": v})
+            # every held table is looked at again after every operation
+            for k, h in enumerate(held):
+                got = table_of(h["obj"])
+                if got != tuple(h["want"]) and not bad:
+                    bad = True
+                    last = k == len(held) - 1 and ops_case[-1]["op"] == "confusion_matrix"
+                    ctx.finding("confusion/history/" + ("pairs_not_counted_once" if last else "held_table_changed_by_later_call"),
+                                "a confusion matrix held by the caller is not the table of pair counts of its own (obs, sim)"
+                                + ("" if last else " any more after a later operation on ANOTHER table"),
+                                {"history": ops_case, "table": k, "args": h["args"], "rows": got[0], "cols": got[1], "cells": got[2],
+                                 "expected_cells": h["want"][2]})
+            if bad:
+                break
+        if bad:
+            continue
+        reqs.append("hist " + " ".join(ops_txt))
+        unt = [k for k in range(len(held)) if not any(t[0] in "EF" and int(t.split(":")[1]) == k for t in ops_txt)]
+        impl = " ".join([C.ilist(unt)] + [f"{C.ilist(r)} {C.ilist(c)} " + "[" + ";".join(",".join(str(v) for v in row) for row in cells) + "]"
+                                          for (r, c, cells) in (table_of(h["obj"]) for h in held)])
+        checks.append(("hist", impl, 1.0, {"history": ops_case}))
+        ctx.count(("hist", tuple(ops_txt)), len(held) > 1, "history/held_tables/" + ("edited" if any(t[0] in "EF" for t in ops_txt) else "scored_only"))
+
+    # the score dictionaries of binary() are results too
+    lap("held_tables")
+    for it in range(ctx.scale(150, 1500)):
+        tabs = [[[rng.randint(1, 30), rng.randint(1, 30)], [rng.randint(1, 30), rng.randint(1, 30)]] for _ in range(rng.randint(2, 4))]
+        heldb = []
+        for t in tabs:
+            arg = rng.choice([lambda x: x, np.array, lambda x: np.array(x, dtype=np.int32)])(t)
+            sc, sr = metrics.binary(arg)
+            (tn, fp), (fn, tp) = t
+            d_orss, d_h = float(Fraction(tp * tn - fp * fn, tp * tn + fp * fn)), tp / (tp + fn)
+            if not abs(float(sc["ORSS"]) - d_orss) <= 1e-9 or not abs(float(sc["hitrate"]) - d_h) <= 1e-12:
+                ctx.finding("binary/history/not_definition", "binary() does not return the definitions in a sequence of calls (earlier results held, some edited by their holder)",
+                            {"tables": tabs, "table": t, "ORSS": float(sc["ORSS"]), "definition": d_orss})
+            heldb.append((t, sc, sr, dict(sc), dict(sr)))
+            if rng.random() < 0.4:     # the caller edits what it holds: later calls must not see it
+                j = rng.randrange(len(heldb))
+                key = rng.choice(["ORSS", "MCC", "hitrate", "bias"])
+                heldb[j][1][key] = 12345.0
+                heldb[j][3][key] = 12345.0
+                heldb[j][2]["MCC"] = -7.0
+                heldb[j][4]["MCC"] = -7.0
+            eqv = lambda a_, b_: a_ == b_ or (a_ != a_ and b_ != b_)
+            for (t0, sc0, sr0, sc_w, sr_w) in heldb:
+                if sc0.keys() != sc_w.keys() or sr0.keys() != sr_w.keys() or not all(eqv(sc0[k_], sc_w[k_]) for k_ in sc_w) \
+                        or not all(eqv(sr0[k_], sr_w[k_]) for k_ in sr_w):
+                    ctx.finding("binary/history/held_scores_changed_by_later_call", "scores returned by binary() changed after a later call",
+                                {"tables": tabs, "table": t0, "now": {k_: float(v_) for k_, v_ in sc0.items()}, "at_return": {k_: float(v_) for k_, v_ in sc_w.items()}})
+                    break
+        ctx.count(("binhist", str(tabs)), True, "history/held_scores")
+
+    # labels outside 0..ncat-1 (a given ncat that is too small, negative labels): outside the property's quantifier, the
+    # oracle is silent; the model says which pairs the code drops there (confusion_total_needs_range)
+    lap("held_scores")
+    for it in range(ctx.scale(150, 800)):
+        ncat_g = rng.randint(1, 5)
+        n = rng.choice([1, 2, 3, 6, 15])
+        obs = [rng.randint(-1, ncat_g + 1) for _ in range(n)]
+        sim = [rng.randint(-1, ncat_g + 1) for _ in range(n)]
+        given = rng.random() < 0.6
+        try:
+            cm = metrics.confusion_matrix(obs, sim, ncat_g if given else None)
+            rows, cols = [int(x) for x in cm.index.values], [int(x) for x in cm.columns.values]
+            cells = "[" + ";".join(",".join(str(int(v)) for v in r) for r in cm.values) + "]"
+            impl = f"{ncat_g if given else max(0, max(obs + sim) + 1)} {C.ilist(rows)} {C.ilist(cols)} {cells}"
+        except Exception as e:  # noqa
+            impl = f"err {type(e).__name__}"
+        inside = all(0 <= x < (ncat_g if given else 10 ** 9) for x in obs + sim)
+        reqs.append(f"conf {C.ilist(obs)} {C.ilist(sim)} {ncat_g if given else '-'}")
+        # outside the quantifier the comparison is informational (counted, never a disagreement): the property does not say
+        # what happens to labels outside 0..ncat-1
+        checks.append(("conf" if inside else "conf_outside", impl, 1.0, {"obs": obs, "sim": sim, "ncat": ncat_g if given else None}))
+        ctx.count(("conf_out", tuple(obs), tuple(sim), given), True, "confusion/labels_" + ("inside" if inside else "outside_range"))
+
+    lap("confusion_out_of_range")
     # ---------------- binary scores
     top = ctx.scale(6, 12)
     tables = list(itertools.product(range(1, top + 1), repeat=4))
@@ -546,16 +973,103 @@ def body(ctx):
                 "falsealarm": q(fp, fp + tn), "accuracy": q(tp + tn, tp + tn + fp + fn), "F1": q(2 * tp, 2 * tp + fp + fn),
                 "MCC": (tp * tn - fp * fn) / math.sqrt((tp + fp) * (tp + fn) * (tn + fp) * (tn + fn)),
                 "LOR": math.log(tp * tn / (fp * fn)), "ORSS": q(tp * tn - fp * fn, tp * tn + fp * fn)}
+        reqs.append("binary32 " + " ".join(C.f2h(x) for x in (tn, fp, fn, tp)))
+        checks.append(("rnd32", ("binary", None), 1.0, case))
+        # ranges that survive rounding (binary_rates_range_rnd, binary_orss_range_rnd): no tolerance
+        for k in ("hitrate", "falsealarm", "precision", "accuracy"):
+            if not 0.0 <= float(sc[k]) <= 1.0:
+                ctx.finding(f"binary/{k}/not_a_proportion", f"binary score {k} is outside [0, 1]", {**case, "value": float(sc[k])})
+        for k in ("ORSS", "MCC"):
+            if not -1.0 - (1e-12 if k == "MCC" else 0.0) <= float(sc[k]) <= 1.0 + (1e-12 if k == "MCC" else 0.0):
+                ctx.finding(f"binary/{k}/outside_range", f"binary score {k} is outside [-1, 1]", {**case, "value": float(sc[k])})
+        # which way the skill points is an exact comparison of integers (binary_skill_sign); for small counts rounding cannot flip it
+        if max(tn, fp, fn, tp) <= 1000 and tp * tn != fp * fn:
+            sg = 1 if tp * tn > fp * fn else -1
+            for k in ("ORSS", "MCC", "LOR"):
+                if not sg * float(sc[k]) > 0:
+                    ctx.finding(f"binary/{k}/wrong_sign", f"binary score {k} does not have the sign of TP*TN - FP*FN", {**case, "value": float(sc[k])})
         for k, d in defs.items():
             val = float(sc[k])
             if not (abs(val - d) <= 1e-9 * max(1.0, abs(d))):
                 ctx.finding(f"binary/{k}/not_definition", f"binary score {k} differs from its contingency-table definition",
                             {**case, "value": val, "definition": d})
 
+    # ---------------- binary(): tables it rejects (shape, zero margins / zero cells: ZeroDivisionError) and the route
+    # series -> confusion_matrix(ncat=2) -> binary
+    lap("binary")
+    for it in range(ctx.scale(300, 3000)):
+        u = rng.random()
+        if u < 0.12:
+            r_, c_ = rng.choice([(1, 2), (2, 3), (3, 3), (2, 1), (3, 2)])
+            t = [[rng.randint(0, 9) for _ in range(c_)] for _ in range(r_)]
+        else:
+            t = [[rng.choice([0, 0, 1, 2, 5, 17, 400]) for _ in range(2)] for _ in range(2)]
+        try:
+            with warnings.catch_warnings():
+                warnings.simplefilter("ignore")
+                sc, _ = metrics.binary(np.array(t) if rng.random() < 0.5 else t)
+            impl = [float(sc[k]) for k in ("bias", "hitrate", "precision", "falsealarm", "accuracy", "F1", "MCC", "LOR", "ORSS")]
+        except ValueError as e:
+            impl = "err shape" if "Expected confusion matrix of shape" in str(e) else "err other " + str(e)[:60]
+        except ZeroDivisionError:
+            impl = "err zerodiv"
+        except Exception as e:  # noqa
+            impl = f"err other {type(e).__name__} {str(e)[:60]}"
+        reqs.append("binaryof " + C.fmat(t))
+        zero_cell = len(t) == 2 and all(len(r_) == 2 for r_ in t) and min(min(r_) for r_ in t) == 0
+        checks.append((("info:binaryof" if zero_cell else "binaryof"), impl, 1.0, {"table": t}))
+        ctx.count(("binaryof", str(t)), not isinstance(impl, str), "binaryof/" + (impl if isinstance(impl, str) else "scores"))
+
+    lap("binary_rejected")
+    for it in range(ctx.scale(300, 1500)):
+        n = rng.choice([1, 2, 4, 8, 20, 60])
+        po, ps = rng.choice([0.0, 0.3, 0.5, 0.8, 1.0]), rng.choice([0.0, 0.3, 0.5, 0.8, 1.0])
+        obs = [int(rng.random() < po) for _ in range(n)]
+        sim = [int(rng.random() < ps) if rng.random() < 0.5 else (x if rng.random() < 0.8 else 1 - x) for x in obs]
+        how = rng.choice(["list", "int", "bool"])
+        wrap = {"list": list, "int": np.array, "bool": lambda x: np.array(x, dtype=bool)}[how]
+        try:
+            with warnings.catch_warnings():
+                warnings.simplefilter("ignore")
+                sc, _ = metrics.binary(metrics.confusion_matrix(wrap(obs), wrap(sim), 2))
+            impl = [float(sc[k]) for k in ("bias", "hitrate", "precision", "falsealarm", "accuracy", "F1", "MCC", "LOR", "ORSS")]
+        except ZeroDivisionError:
+            impl = "err zerodiv"
+        except Exception as e:  # noqa
+            impl = f"err other {type(e).__name__} {str(e)[:60]}"
+        reqs.append(f"binseries {C.ilist(obs)} {C.ilist(sim)}")
+        case = {"obs": obs, "sim": sim, "given_as": how}
+        cnt = lambda a_, b_: sum(1 for x, y in zip(obs, sim) if x == a_ and y == b_)
+        tn, fp, fn, tp = cnt(0, 0), cnt(0, 1), cnt(1, 0), cnt(1, 1)
+        checks.append((("binaryof" if min(tn, fp, fn, tp) > 0 else "info:binaryof"), impl, 1.0, case))
+        ctx.count(("binseries", tuple(obs), tuple(sim)), not isinstance(impl, str), "binseries/" + ("scores" if not isinstance(impl, str) else impl))
+        if min(tn, fp, fn, tp) > 0:
+            # inside the quantifier: the scores of the two series are those of their own contingency counts
+            if isinstance(impl, str):
+                ctx.finding("binary/series/raises", "binary(confusion_matrix(obs, sim, 2)) raises although the four cells are positive", {**case, "error": impl})
+            else:
+                defs = [(tp + fp) / (tp + fn), tp / (tp + fn), tp / (tp + fp), fp / (fp + tn), (tp + tn) / n, 2 * tp / (2 * tp + fp + fn),
+                        (tp * tn - fp * fn) / math.sqrt((tp + fp) * (tp + fn) * (tn + fp) * (tn + fn)), math.log(tp * tn / (fp * fn)),
+                        (tp * tn - fp * fn) / (tp * tn + fp * fn)]
+                for k_, v_, d_ in zip(("bias", "hitrate", "precision", "falsealarm", "accuracy", "F1", "MCC", "LOR", "ORSS"), impl, defs):
+                    if not abs(v_ - d_) <= 1e-9 * max(1.0, abs(d_)):
+                        ctx.finding(f"binary/series/{k_}/not_definition", f"score {k_} of two 0/1 series differs from its definition on their pair counts",
+                                    {**case, "value": v_, "definition": d_, "counts_tn_fp_fn_tp": [tn, fp, fn, tp]})
+
+    lap("series_to_binary")
     # ---------------- correspondence
     replies = lean.ask(reqs)
+    lap("model_driver")
+    outside_stats = {True: 0, False: 0}
+    info_stats = {}
     for req, rep, (kind, impl, cond, case) in zip(reqs, replies, checks):
         ok = True
+        # "info:<kind>": an input outside the property's quantifier whose treatment is an accident of the implementation
+        # (order of two checks that both fail, ZeroDivisionError of a zero cell ...): compared with the model, counted in the
+        # evidence, never a disagreement
+        info = kind.startswith("info:")
+        if info:
+            kind = kind[5:]
         if kind == "nonull":
             a, b = rep.split(" ")
             ok = C.parse_flist(a) == impl[0] and C.parse_flist(b) == impl[1]
@@ -579,18 +1093,68 @@ def body(ctx):
                 abs(iv - mv) <= 8 * 2.2e-16 * (np.mean(np.abs(row)) if len(row) else 1.0)))
         elif kind == "corrfull":
             if isinstance(impl, str):
-                ok = rep == impl
+                ok = rep == impl or (impl.startswith("err") and rep.startswith("err"))
             else:
                 mv = None if rep == "none" else (C.h2f(rep.split(" ")[1]) if rep.startswith("some") else "?")
                 iv = None if impl != impl else impl
                 ok = mv != "?" and sclose(iv, mv, cond, 2e-10)
+        elif kind == "full":
+            # impl: float, "nan" or "err ..."; cond None: only the kind of outcome is compared
+            if cond is None and case.get("fn") == "nse" and not (isinstance(impl, str) and impl.startswith("err")):
+                # nse has no guard: on degenerate observations 1 - x/0 is -inf or nan by accident of the arithmetic; only
+                # "a number or nan, no error" is compared there
+                ok = not rep.startswith("err")
+            elif isinstance(impl, str):
+                # rejected is rejected: which exception and which message is not an observable the property constrains
+                ok = rep == impl or (impl.startswith("err") and rep.startswith("err"))
+            elif not rep.startswith("value "):
+                ok = False
+            elif cond is None:
+                ok = True
+            else:
+                mv = C.h2f(rep.split(" ")[1])
+                ok = impl == mv or sclose(impl, mv, cond, 2e-10)
+        elif kind == "rnd32":
+            what, ref = impl
+            if what == "nse":
+                mv = C.h2f(rep)
+                ok = mv <= 1.0 and (ref is None or mv == ref or (mv != mv and ref != ref))
+            elif what == "nse_perfect":
+                ok = C.h2f(rep) == 1.0
+            elif what == "kge":
+                ok = rep == "none" or C.h2f(rep.split(" ")[1]) <= 1.0 or rep == "some nan"
+            elif what == "bias_perfect":
+                ok = rep == "none" or C.h2f(rep.split(" ")[1]) == 0.0
+            elif what == "bias_norm_range":
+                ok = rep == "none" or -1.0 <= C.h2f(rep.split(" ")[1]) <= 1.0
+            else:
+                mv = [C.h2f(t) for t in rep.split(" ")]
+                ok = all(0.0 <= x <= 1.0 for x in mv[:3]) and -1.0 <= mv[3] <= 1.0
+        elif kind == "exclremoved":
+            parts = rep.split(" | ")
+            ok = len(parts) == 8 and C.parse_flist(parts[0]) == impl[0] and C.parse_flist(parts[1]) == impl[1] and \
+                parts[2] == parts[3] and parts[4] == parts[5] and parts[6] == parts[7]
         elif kind == "level":
             mv = C.h2f(rep.split(" ")[-1]) if rep != "none" else float("nan")
             ok = (impl != impl and mv != mv) or abs(impl - mv) <= 1e-9 * max(1.0, abs(mv))
         elif kind == "nse":
             ok = sclose(impl, C.h2f(rep), cond)
-        elif kind == "conf":
+        elif kind in ("conf", "hist"):
             ok = rep == impl
+        elif kind == "conf_outside":
+            outside_stats[rep == impl] += 1
+        elif kind == "binaryof":
+            if isinstance(impl, str):
+                ok = rep == impl or (impl.startswith("err") and rep.startswith("err"))
+            elif rep.startswith("err"):
+                ok = False
+            else:
+                mv = [C.h2f(t) for t in rep.split(" ")]
+                # the odds ratio is conditioned by the smallest of H, 1-H, F, 1-F (zero cells: 0, inf or nan on both sides)
+                rates = [x for x in (impl[1], 1 - impl[1], impl[3], 1 - impl[3]) if x > 0]
+                amp = 1.0 / min(rates) if rates else 1.0
+                ok = all(C.close(a, b, rel=1e-12) for a, b in zip(impl[:7], mv[:7])) and \
+                    all(C.close(a, b, rel=4e-15 * amp, abs_=4e-15 * amp) for a, b in zip(impl[7:], mv[7:]))
         elif kind == "binary":
             mv = [C.h2f(t) for t in rep.split(" ")]
             (tn, fp), (fn, tp) = case["table"]
@@ -598,9 +1162,16 @@ def body(ctx):
             amp = 1.0 / min(tp / (tp + fn), fn / (tp + fn), fp / (fp + tn), tn / (fp + tn))
             ok = all(C.close(a, b, rel=1e-12) for a, b in zip(impl[:7], mv[:7])) and \
                 all(C.close(a, b, rel=4e-15 * amp, abs_=4e-15 * amp) for a, b in zip(impl[7:], mv[7:]))
+        if info:
+            st_ = info_stats.setdefault(kind + "/" + str(case.get("fn", "")), [0, 0])
+            st_[0 if ok else 1] += 1
+            continue
         if not ok:
             ctx.disagree(f"C04/{kind}: implementation and model differ",
                          {"request": req[:2000], "impl": impl, "model": rep[:2000], **case})
+    lap("comparison")
+    ctx.extra["labels_outside_range_model_agrees_differs"] = [outside_stats[True], outside_stats[False]]
+    ctx.extra["outside_quantifier_informational_model_agrees_differs"] = info_stats
     ctx.extra["arguments_edited_in_place_by_the_code_and_restored"] = _Guard.edits
     ctx.extra["rule"] = __doc__.split("Cases:")[1].strip()
     ctx.assumptions += ["numpy mean/std/corrcoef, pandas.crosstab, scipy spearmanr are external (Spearman = Pearson correlation of the model's mid-ranks)",
@@ -609,5 +1180,5 @@ def body(ctx):
 
 def main(tier, replay=None):
     return C.run_check(PID, tier, body, replay=replay,
-                       trusted=["numpy mean/std/corrcoef/nanmean/nanmedian, pandas.crosstab (external)",
-                                "transform.forward is taken from the real code (its own properties are C01/C02)"])
+                       trusted=["numpy mean/std/corrcoef/nanmean/nanmedian, pandas.crosstab, scipy spearmanr (external)",
+                                "closed-form streams take trans.forward from the real code; whole-function streams use the transform model of C01/C02 (its own properties are C01/C02)"])
